@@ -52,3 +52,18 @@ Theorem C01_flat_language : forall flags isb ts,
     forall n, C01Flat.Mseq rs n [] <-> C01Flat.Den (WcParse.has flags Consts.Mwcparse.DOTMATCH) true ts n.
 Proof. exact C01Flat.C01_flat_language. Qed.
 Print Assumptions C01_flat_language.
+
+(* ... and for EVERY fnmatch flag word, EXTMATCH included (`Proofs/C01Ext.v`): a failed group attempt - the character after
+   `? * + @ !` is not `(` - leaves no trace in the text; [wfx] asks for exactly that *)
+From WC.Proofs Require C01Ext.
+Theorem C01_flat_language_any_flags : forall flags isb ts,
+  C01Flat.wf ts = true -> C01Ext.wfx ts = true ->
+  WcParse.has flags Consts.Mwcparse.PATHNAME = false -> FlagFuns.is_unix_style WcParse.linux flags = true ->
+  WcParse.has flags Consts.Mwcparse.u_ANCHOR = false -> WcParse.has flags Consts.Mwcparse.MATCHBASE = false -> WcParse.has flags Consts.Mwcparse.u_EXTMATCHBASE = false ->
+  WcParse.has flags Consts.Mwcparse.u_TRANSLATE = false ->
+  exists rs,
+    WcParse.wcparse WcParse.linux flags isb (C01Flat.unparse ts) =
+      inl (S_ "^(?s" ++ (if FlagFuns.get_case WcParse.linux flags then [] else S_ "i") ++ S_ ":" ++ C01Flat.print rs ++ S_ ")$") /\
+    forall n, C01Flat.Mseq rs n [] <-> C01Flat.Den (WcParse.has flags Consts.Mwcparse.DOTMATCH) true ts n.
+Proof. exact C01Ext.C01_flat_language_any_flags. Qed.
+Print Assumptions C01_flat_language_any_flags.
